@@ -18,11 +18,23 @@ THEOREMS = [
     (M, "C16.wrap_spec", "wrap replaces exactly the value span of the reference entity's text"),
     (M, "C16.wrap_unwrap", "wrapping an entity's own raw value gives back its text"),
     (M, "C16.idempotent_entities", "serializing the output entries again with no new data yields the same entities"),
+    (M, "C16.serialize_reparses_properties_partial", "RE-PARSE (.properties, printed safe records, distinct keys per file, safe new values): the text "
+        "serialize returns is parsed by PropertiesParser.walk without junk into exactly the expected records — reference keys with a new value or a "
+        "kept old value, in reference order, each with the new value if given else the old one"),
+    (M, "C16.serialize_reparses_ini_partial", "RE-PARSE (.ini, `[sec]` + printed safe ini records, same section in reference and old file, distinct keys none equal "
+        "to the section name, new values without newline): IniParser.walk parses the output without junk into the section and exactly the expected records"),
+    (M, "C16.serialize_reparses_ini_new_partial", "the same for a new localization (empty old file): section and exactly the reference keys that have a new value"),
+    (M, "C16.serialized_shape", "for ALL entry lists: if in the template dict and in the sanitized old dict every non-whitespace key is directly followed "
+        "by a Whitespace object, the same holds for the serialized entry list (no entity is glued to a neighbouring entry)"),
 ]
 PARTIAL = [
-    "'parses without junk' (re-parse of the produced text) is not proved: it is checked by the oracle with the real parsers (all six formats) and by "
-    "the end-to-end correspondence; it is false for the inputs of the findings C16-inc-leading-blank, C16-inc-blank-lines, C16-dtd-quote-conflict, "
-    "C16-old-eof-comment-glued, C16-inc-reference-without-value",
+    "'parses without junk' (re-parse of the produced text) is a THEOREM only for .properties and .ini on the class of printed safe records "
+    "(serialize_reparses_properties_partial: reference and old file are `key=value\\n` per record with safe keys/values and distinct keys per file, "
+    "new values for reference keys are safe; no comments, blank lines, junk, escapes, missing final newline; serialize_reparses_ini_partial: the same "
+    "under one `[section]` header shared by reference and old file, no key equal to the section name); for every other layout and the other "
+    "four formats it is checked by the oracle with the real parsers and by the end-to-end correspondence; it is false for the inputs of the findings "
+    "C16-inc-leading-blank, C16-inc-blank-lines, C16-dtd-quote-conflict, C16-old-eof-comment-glued, C16-inc-reference-without-value "
+    "(negation witness for the old-file hypothesis = C16-old-eof-comment-glued, evaluated in Props/C16.lean; witnesses for distinct keys and safe values there too)",
     "Fluent and Android `wrap` (fluent.syntax serialize_comment, minidom cloneNode/toxml) are external: oracle only",
     "idempotent_entities is at entry level: that re-parsing the text gives the same entries back is by correspondence/oracle",
     "theorems about keys/values assume new_data is a dict (duplicate-free keys; negation witness in Props/C16.lean); wrap_spec assumes the value span "
@@ -33,7 +45,8 @@ LEVEL_TEXT = ("Lean 4 theorems over an executable transliteration of serializer.
               "entities of the output are exactly the reference keys with a new or kept old value, in reference order, with the right values, "
               "nothing foreign, idempotent; the model (including the regex parsers' walk) is tied to the Python by exhaustive small + random "
               "differential runs on properties/dtd/ini/inc, and an independent oracle re-parses the real output for all six formats")
-LEVEL_NOTE = ("trusted: Lean kernel; hand-written model validated by correspondence; re-parse claims ('parses without junk') are oracle/correspondence only; "
+LEVEL_NOTE = ("trusted: Lean kernel; hand-written model validated by correspondence; re-parse claims ('parses without junk') are proved for .properties / .ini on "
+              "printed safe records only, oracle/correspondence elsewhere; "
               "Fluent/Android wrap are external libraries (oracle only); theorems assume new_data is a dict (duplicate-free keys)")
 TECHNIQUE = "Lean 4 proof over executable model + differential correspondence + re-parse oracle on the implementation"
 TRUSTED = [
@@ -265,6 +278,7 @@ def run(ctx):
             out.samples.append({"fmt": fmt, "ref": c["ref"], "old": c["old"], "new": c["new"], "out": r["r"]["out"]})
     run_wild(ctx, out)
     run_entries(ctx, out)
+    run_probes(ctx, out)
     # unexplained violations first, then the findings round-robin (the replay file keeps the first 20)
     groups = {}
     for v in out.violations:
@@ -277,6 +291,22 @@ def run(ctx):
                 ordered.append(g[i])
     out.violations = ordered
     return out
+
+
+def run_probes(ctx, out):
+    """excluded points of the hypotheses of the re-parse theorems, probed on the real code (informational, not judged)"""
+    probes = [
+        ("props.old_dupkey", "properties", "a=E\n", "a=y\na=z\n", []),
+        ("props.ref_dupkey", "properties", "a=E\na=F\n", "", [["a", "N"]]),
+        ("props.value_trailing_blank", "properties", "a=E\n", "", [["a", "N "]]),
+        ("ini.section_key_clash", "ini", "[a]\na=E\n", "[a]\na=y\n", [["a", "N"]]),
+        ("ini.other_section", "ini", "[S]\na=E\n", "[O]\na=y\n", []),
+    ]
+    res = pool.pmap("impl.serialize", "impl_serialize_text", [[f, r, o, n] for _, f, r, o, n in probes], timeout=5.0)
+    for (tag, f, r, o, n), x in zip(probes, res):
+        got = x.get("r", x.get("exc")) if isinstance(x, dict) else x
+        out.count("probe.%s" % tag)
+        out.notes.append("probe %s: serialize(%s, ref=%r, old=%r, new=%r) -> %r" % (tag, f, r, o, n, got))
 
 
 def run_wild(ctx, out):
